@@ -114,4 +114,26 @@ REGISTRY = {
         'explanation': 'run/stop contracts discharged by z3',
         'not_decided': ['liveness ("keeps processing until stop")', 'stop() from a second thread'],
     },
+    'C09': {
+        'modules': ['contracts.core_timers'], 'level': 'proof',
+        'level_text': 'Over real-valued time with a non-decreasing clock: a Timer visit fires iff now >= expiry and no unregistration is '
+                      'pending, re-arms a persistent timer to now\' + interval (consecutive firings an interval apart), otherwise cuts the '
+                      'idle wait to expiry - now; reduce_time_left only lowers; the fallback generator blocks for at most time_left; '
+                      'decorator priorities put every timer before any blocking handler (with C02).',
+        'level_note': 'trusted: time.time non-decreasing, floats as reals, mktime/timetuple, threading.Event; pollers pass time_left '
+                      'to the kernel (structural fact); C07 for the one-shot unregistration.',
+        'explanation': 'timer contracts discharged by z3',
+    },
+    'C03': {
+        'modules': ['contracts.core_timers', 'contracts.core_dispatch'], 'level': 'other',
+        'level_text': 'PARTIAL: only the four sequential mechanisms of the wake-up hand-shake are proved as post-conditions (foreign-thread '
+                      'branch of _fire, arming block of the dispatcher, reduce_time_left -> resume, clear-before-wait and timeout reads). '
+                      'That they compose to "nothing lost, loop always wakes" under every interleaving is NOT decided by sequential contracts.',
+        'level_note': 'sequential reasoning only; the interleaving quantifier of the property is out of reach of this technique family '
+                      '(would need interference-freedom of unlocked writes = protocol model checking).',
+        'explanation': 'Contract-based deductive verification is sequential: the check discharges the post-conditions of the four critical '
+                       'sections named in the property anchors and can therefore only detect changes that break one of them; the '
+                       'composition over thread schedules (no lost wake-up, exactly-once, per-thread FIFO) is not mechanised.',
+        'not_decided': ['every statement about interleavings: lost wake-ups, cross-thread exactly-once and per-thread order'],
+    },
 }
